@@ -75,6 +75,12 @@ func programs(quick bool) []program {
 		{"let l=[1,2,2,3].compact((p,q)->p=q); l[a]+l.size()", "private lazy compact list, index access"},
 		{"let l=[1,2,3].iirCombine(e->e+a,(x0,x1,y)->x0+x1+y); l[2]+l[0]", "private lazy iir list, index access"},
 		{"let l=[1,2].cross([a,5],(p,q)->p*10+q); l[3]+l[0]", "private lazy cross list, index access"},
+		{"let base={p:1,q:2}+{r:3}; let m=base+{x:a+10}; m.x*100+m.size()", "constant map with spare capacity (result of +), merged concurrently, the merged entry observed"},
+		{"let base={p:1,q:2,r:3}.accept((k,v)->v<3); let m=base+{x:a+10}; m.x*100+base.size()", "constant map with spare capacity (result of accept), merged concurrently"},
+		{"let base={p:1,q:2}+{r:3}; let m=base.put(\"x\",a+10); m.x*100+m.size()", "constant map with spare capacity, put concurrently"},
+		{"let base={p:1,q:2}+{r:3}; [base+{x:a+10}, base+{y:a+20}].map(m->m.size()).sum()+(base+{x:a+10}).x", "constant map with spare capacity, forked twice in one evaluation and concurrently"},
+		{"let ip=[{x:0,y:0},{x:1,y:10},{x:2,y:0},{x:3,y:50},{x:4,y:7}].createInterpolation(p->p.x,p->p.y); [ip(a+0.5), ip(3.5-a), ip(a*1.25)].string()", "constant closure created by the host (createInterpolation), called in different intervals"},
+		{"let lp=createLowPass(\"f\",p->p.t,p->p.v,1); let i=lp.initial({t:a,v:a+1}); lp.filter({t:a+1,v:5},{t:a,v:a+1},i).f", "constant closures created by the host (createLowPass)"},
 		{"let m={k:1}.eval(); m.put(\"x\",a).size()", "constant hash map"},
 		{"let m={k:1}.replace(m->{k:2}); m.put(\"x\",a).k", "constant replace map"},
 	}
